@@ -18,12 +18,14 @@ MANIFEST = {
 RULE = (
     'Generated workflow with retries (as C02), outcome sequences with '
     'failures and submit failures, and schedules of <=60 steps over loop / '
-    'return / advance / deliver / deliver-newest-first / duplicate / user '
-    'poll (so that started arrives before the submit callback, messages '
+    'return / advance / deliver / deliver-newest-first / duplicate / '
+    're-delivery of an already processed message / clock tick / user '
+    'poll; execution retry delays PT0S or PT10M (so that started arrives before the submit callback, messages '
     'arrive out of order, twice, or after a retry), then a fair drain.  '
     'Oracle on every status change recorded by the TaskProxy.state_reset '
     'monitor: forward along waiting < preparing < submitted < running < '
-    '{succeeded, failed}; submit-failed only from preparing/submitted; '
+    '{succeeded, failed}, never out of waiting on a job message; '
+    'submit-failed only from preparing/submitted; '
     'expired only from waiting; back to waiting only from the retry path.  '
     'After every iteration each pooled proxy\'s completed outputs are a '
     'superset of what they were, and succeeded/failed complete implies '
@@ -56,6 +58,14 @@ def cases(draw):
     spec = draw(wfspecs({'retries': True, 'future': False, 'abs': False,
                          'max_tasks': 4, 'max_fcp': 3}))
     outcomes = draw(outcome_maps(spec, max_subs=3))
+    # clock ticks must not trip the stall timeout abort
+    spec['extra']['scheduler_events'] = {
+        'stall timeout': 'P3000D', 'abort on stall timeout': 'False'}
+    for t, r in spec['retries'].items():
+        # half of the retrying tasks wait PT10M for the retry (messages of
+        # the failed job can arrive while the task waits); the others PT0S
+        if r.get('exec') and draw(st.booleans()):
+            r['exec_delays'] = ['PT10M'] * r['exec']
     for t in spec['retries']:
         for p in range(spec['icp'], spec['fcp'] + 1):
             if draw(st.integers(0, 2)) == 0:
@@ -64,7 +74,8 @@ def cases(draw):
                         ['failed', 'submit-fail', None]))}
                     for _ in range(draw(st.integers(1, 3)))]
     sched = draw(schedules(60, ops=('loop', 'loop', 'ret', 'adv', 'adv',
-                                    'del', 'delr', 'dup', 'poll'),
+                                    'del', 'delr', 'dup', 'poll', 'redel',
+                                    'tick'),
                           min_len=20))
     delays = draw(st.lists(st.sampled_from([0, 0, 0, 1, 2, 3, 6, 12]),
                            min_size=1, max_size=12))
@@ -93,6 +104,12 @@ def transition_ok(ev):
                 f'{old} -> submit-failed')
     if new == 'expired':
         return old == 'waiting', f'{old} -> expired'
+    if old == 'waiting' and 'process_message' in ev['site'] \
+            and not ev.get('forced'):
+        # a waiting task has no job that could report anything: a job
+        # message that moves it on (other than by expiry) is a stale message
+        # of the failed job of a task waiting for its retry
+        return False, f'{old} -> {new} on a job message'
     if old in RANK and new in RANK:
         return RANK[new] > RANK[old], f'{old} -> {new}'
     return False, f'{old} -> {new}'
